@@ -227,6 +227,24 @@ Definition recover (m : mode) (s : st) : image :=
           (redo (dfiles s) (closed_du s ++ cur_du s) (fun k => if mem (fst k) (dfiles s) then dur s k else None))
   end.
 
+(* recover_all_tables keys the table files by the table id stored in their header and visits the
+   schema directories in readdir order; when a user table carries the id of a system table
+   (turdb.meta is written once, at Database::create, with next_table_id = 1: a database that was
+   closed before its first CREATE TABLE hands out 1, 2, .. again) and turdb_catalog/ comes later in
+   that order, the frames of that table go to the system table's file instead.  `sh` = the tables
+   shadowed in this way (observed per workload; [] when ids are unique, which is what `recover` says) *)
+Definition recover_sh (sh : list Z) (m : mode) (s : st) : image :=
+  let live (l : list Z) := filter (fun f => negb (mem f sh)) l in
+  match m with
+  | Kill =>
+      mki (match cat_v s with CatOk _ => true | CatTorn => false end)
+          (match cat_v s with CatOk ts => ts | CatTorn => [] end)
+          (redo (live (files s)) (closed_fl s ++ cur_fl s) (vol s))
+  | Power =>
+      mki true (cat_d s)
+          (redo (live (dfiles s)) (closed_du s ++ cur_du s) (fun k => if mem (fst k) (dfiles s) then dur s k else None))
+  end.
+
 (* ------------------------------------------------------------------ what the io_event hook sees *)
 Inductive phys :=
 | PStore (f p i : Z)
